@@ -119,6 +119,18 @@ func genC11(t *rapid.T) c11Case {
 		}
 		c.Clauses = append(c.Clauses, cl)
 	}
+	if gen.Maybe(t, 20, "optional-clause") {
+		// an OPTIONAL clause on the first subject: its bindings are NULL in the solutions it does
+		// not match, and those solutions still count
+		p := model.PredSpec{ID: gen.Pick(t, u.PredIDs, "opid")}
+		oc := bq.Clause{Optional: true, S: bq.SPos{Binding: "?s0"}, P: bq.PPos{Pred: &p}, O: bq.OPos{Binding: "?oo"}}
+		if c.Clauses[0].S.Binding != "?s0" {
+			if b := c.Clauses[0].S.Binding; b != "" {
+				oc.S.Binding = b
+			}
+		}
+		c.Clauses = append(c.Clauses, oc)
+	}
 	if cs, renamed := avoidObjIDReuse(c.Clauses); renamed {
 		c.Clauses = cs
 		c.Excluded = append(c.Excluded, "KF-C03-OBJ-ID-UNCHECKED")
@@ -314,7 +326,13 @@ func checkC11(ctx *pbt.Ctx, c c11Case) error {
 				for _, r := range gr.rows {
 					dist[r[a.in].Key()] = true
 				}
-				if v.Kind != 'L' || v.L.Kind != "int64" || v.L.I != int64(len(dist)) {
+				// whether NULL (an unmatched OPTIONAL clause) is a "value" is not stated: both readings pass
+				alt := len(dist)
+				if dist["NULL"] {
+					alt--
+					ctx.Label("countd-over-null")
+				}
+				if v.Kind != 'L' || v.L.Kind != "int64" || (v.L.I != int64(len(dist)) && v.L.I != int64(alt)) {
 					return fmt.Errorf("%q: count(distinct %s) for key {%s} is %s, the group has %d distinct values", text, a.in, strings.ReplaceAll(k, "\x00", ", "), v.Key(), len(dist))
 				}
 			case "sum":
